@@ -273,14 +273,16 @@ def h_bitmap_history(ctx, idx, prev):
 
 
 def h_ctor_types(ctx):
-    bad = [F.Frame(8, 1), F.ForwardFrame(8, 1), F.ForwardFrame(16, 1), 5, "x", b"\x01", 1.0, [1], True]
+    bad = [F.Frame(8, 1), F.ForwardFrame(8, 1), F.ForwardFrame(16, 1), 5, "x", b"\x01", 1.0, [1], True,
+           # falsy things that are neither a backward frame nor None
+           0, False, "", b"", [], {}, (), 0.0, F.Frame(8, 0), F.ForwardFrame(8, 0)]
     n = 0
     for cls in response_classes():
         for obj in bad:
             st, r = call(cls, obj)
             ctx.prove(st == "exc" and isinstance(r, TypeError),
                       "%s(%r) gave %r" % (cls.__name__, obj, r),
-                      key="%s/ctor-type:%s" % (cls.__name__, type(obj).__name__))
+                      key="%s/ctor-type:%s%s" % (cls.__name__, type(obj).__name__, "" if obj else "-falsy"))
             n += 1
         st, r = call(cls, None)
         ctx.prove(st == "ok", "%s(None) raised" % cls.__name__, key="%s/ctor-none" % cls.__name__)
